@@ -103,7 +103,8 @@ impl Runner for SubprocessRunner {
         let started = Instant::now();
         let mut comm = process.communicate_start(Some(input.as_bytes().to_vec()));
         if let Some(timeout) = testcase.config.timeout {
-            comm = comm.limit_time(timeout);
+            // (the deadline is computed by addition: keep it within what the clock can express)
+            comm = comm.limit_time(timeout.min(Duration::from_secs(100 * 365 * 24 * 3600)));
             debug!(
                 "waiting for output (max {})",
                 humantime::format_duration(Duration::from_secs(timeout.as_secs()))
